@@ -14,10 +14,15 @@ def _b(prop):
 
 
 CHECKS = {}
+NOT_APPLICABLE = {}
+TECHNIQUE = {
+    "proof": "contract-based deductive verification: sidecar contracts, VCs generated from the real AST, z3/cvc5; bounded stand-in of the same contracts for the rest",
+    "bounded": "bounded stand-in of the sidecar contract on the real function (contract checked at run time over an enumerated finite scope); no obligation proved",
+}
 
 
-def register(prop, level, proof=False, bounded=True, explanation="", assumptions=(), **kw):
-    cfg = {"level": level, "proof": proof, "bounded": bounded, "explanation": explanation,
+def register(prop, level, level_text, level_note, proof=False, bounded=True, explanation="", assumptions=(), **kw):
+    cfg = {"level_text": level_text, "level_note": level_note, "level": level, "proof": proof, "bounded": bounded, "explanation": explanation,
            "assumptions": A_COMMON + list(assumptions)}
     cfg.update(kw)
     if bounded:
@@ -28,5 +33,7 @@ def register(prop, level, proof=False, bounded=True, explanation="", assumptions
     CHECKS[prop] = cfg
 
 
-register("C16", "exploration", proof=False,
-         explanation="bounded stand-in of the remove_unloaded contract on the real function")
+register("C16", "exploration",
+         "Bounded: the contract of remove_unloaded (exact deleted set = dead logic minus protected nodes, frame on survivors, returned list, idempotence) is evaluated on the real method over an exhaustive small scope and random DAGs.",
+         "oracle = reachability via networkx; scope as stated in evidence.bound",
+         proof=False, explanation="bounded stand-in of the remove_unloaded contract on the real function")
